@@ -26,6 +26,7 @@ const (
 	LFT    = "FT"    // lazy transpose of a column-major base
 	LFS    = "FS"    // unit-step slice of a larger column-major parent
 	LFSS   = "FSS"   // stepped slice of a larger column-major parent
+	LSSS   = "SSS"   // unit-step slice of a stepped slice: its storage window is longer than its elements need (ends at the next selected element)
 )
 
 // ColViewLayouts are the views over column-major storage (C16).
@@ -35,6 +36,9 @@ var AllLayouts = []string{LC, LF, LFconv, LT, LS, LSS, LMT, LMS, LMSS, LST, LTS}
 
 // RowLayouts are the C06 operand layouts {contiguous, lazily transposed, sliced, step-sliced, materialised}.
 var RowLayouts = []string{LC, LT, LS, LSS, LMS}
+
+// ElemLayouts are the operand layouts of the elementwise matrices: RowLayouts plus the slice of a stepped slice.
+var ElemLayouts = []string{LC, LT, LS, LSS, LMS, LSSS}
 
 // Operand is a tensor built from a model array in a given layout, together
 // with everything the monitors need to observe raw memory.
@@ -66,6 +70,13 @@ func (op *Operand) newC(t reflect.Type, shape []int, vals []interface{}) (*tenso
 	d := tensor.New(opts...)
 	return d, b
 }
+
+// rs is a start:end:step range.
+type rs struct{ s, e, st int }
+
+func (r rs) Start() int { return r.s }
+func (r rs) End() int   { return r.e }
+func (r rs) Step() int  { return r.st }
 
 func inv(p []int) []int {
 	q := make([]int, len(p))
@@ -390,6 +401,65 @@ func (op *Operand) build(m *model.ND, layout string, rng *rand.Rand) error {
 		op.keep = append(op.keep, parent)
 		op.Recipe["parent"] = pshape
 		op.Recipe["slices"] = specStrings(mspecs)
+	case LSSS:
+		// m extended by one more entry along its last axis is built as a stepped slice; m is then cut out of it
+		if rank < 1 || len(m.V) < 1 {
+			return degrade()
+		}
+		if rank == 1 && m.Shape[0] == 1 {
+			// the one-element case: p(1,4)[:,0:4:2][:,1:2] is a view of shape (1) whose window reaches to the end of p
+			z := model.Zero(t)
+			parent, b := op.newC(t, []int{1, 4}, []interface{}{z, z, m.V[0], z})
+			v5, err := parent.Slice(nil, rs{0, 4, 2})
+			if err != nil {
+				return err
+			}
+			v6, err := v5.Slice(nil, rs{1, 2, 1})
+			if err != nil {
+				return err
+			}
+			vd, ok := v6.(*tensor.Dense)
+			if !ok || !ShapeEq([]int(vd.Shape()), m.Shape) {
+				return degrade()
+			}
+			op.D, op.Root, op.Backing, op.Off = vd, parent, b, []int{2}
+			op.keep = append(op.keep, parent, v5.(*tensor.Dense))
+			op.Recipe["of"] = "p(1,4)[:,0:4:2][:,1:2]"
+			return nil
+		}
+		eshape := model.CopyInts(m.Shape)
+		last := rank - 1
+		eshape[last]++
+		ev := make([]interface{}, 0, model.Size(eshape))
+		model.Each(eshape, func(c []int, r int) {
+			if c[last] < m.Shape[last] {
+				ev = append(ev, m.V[model.Rank(m.Shape, c)])
+			} else {
+				ev = append(ev, model.Zero(t))
+			}
+		})
+		src, err := BuildWith(model.New(t, eshape, ev), LSS, rng, op.Eng)
+		if err != nil {
+			return err
+		}
+		if src.Layout != LSS {
+			return degrade()
+		}
+		specs := make([]tensor.Slice, rank)
+		specs[last] = rs{0, m.Shape[last], 1}
+		v, err := src.D.Slice(specs...)
+		if err != nil {
+			return err
+		}
+		vd, ok := v.(*tensor.Dense)
+		if !ok || !ShapeEq([]int(vd.Shape()), m.Shape) {
+			return degrade() // the library squeezed the result differently: not the layout asked for
+		}
+		op.D, op.Root, op.Backing = vd, src.Root, src.Backing
+		op.keep = append(op.keep, src.D, src.Root)
+		op.Recipe["of"] = src.Recipe
+		op.Off = make([]int, len(m.V))
+		model.Each(m.Shape, func(c []int, r int) { op.Off[r] = src.Off[model.Rank(eshape, c)] })
 	case LMT, LMS, LMSS:
 		inner := map[string]string{LMT: LT, LMS: LS, LMSS: LSS}[layout]
 		src, err := BuildWith(m, inner, rng, op.Eng)
